@@ -221,8 +221,10 @@ def execute(mod, case, ctx, limit=None):
         raise HarnessError(f'RecursionError: {repo_frames(e)}')
     except Exception as e:
         if in_repo(e.__traceback__):
+            # an exception escaping from the code under test on an input inside the documented domain: the
+            # behaviour the property describes did not take place
             h = getattr(mod, 'on_repo_exception', None)
-            v = h(case, e) if h is not None else None
+            v = h(case, e) if h is not None else Violation(f'{mod.ID}.crash', f'{type(e).__name__}: {e} at {repo_frames(e)}')
             if v is not None:
                 raise v from e
             raise HarnessError(f'unclassified exception from the code under test: {e!r} at {repo_frames(e)}\n'
